@@ -217,6 +217,44 @@ class P(flow.Plan):
             m["reconfigured"] = True
             traces.append({"meta": m, "ev": ev})
             inputs.append({"cfg": cfg, "cases": len(ev), "reconfigured": True})
+        # the axis letters are changed on a living builder (g.rename_axis, also to the NAME of another axis), and the whole
+        # formatter is replaced (g.set_formatter with another precision and other letters): what is written afterwards follows
+        # the configuration in force -- two public entry points no other run reaches
+        from gscrib.formatters import DefaultFormatter
+        for r in range(4 if tier == "thorough" else 2):
+            rng = random.Random(sd * 59 + r)
+            cfg = {"dp": 3, "style": ";", "eol": "\n", "labels": ["X", "Y", "Z"]}
+            live = make_builder(cfg)
+            g = live[0]
+            vals = [1.23456, -0.5, 2.675, 1234.56789, 7, rng.uniform(-100, 100)]
+            cmds = [c for c in CMDS if c[0] in ("move_x", "move_y", "rapid_z", "set_axis_x", "auto_home_y", "probe_z", "move_F")]
+            ev, labels, dp = [], ["X", "Y", "Z"], 3
+            steps = [("rename", "x", "A"), ("rename", "y", "X"), ("formatter", 1, ["U", "V", "W"]), ("rename", "z", "U"),
+                     ("formatter", 5, ["Y", "X", "Z"]), ("rename", "x", "X")]
+            rng.shuffle(steps)
+            for st in steps:
+                if st[0] == "rename":
+                    g.rename_axis(st[1], st[2])
+                    labels = list(labels)
+                    labels["xyz".index(st[1])] = st[2]
+                else:
+                    f = DefaultFormatter()
+                    f.set_decimal_places(st[1])
+                    f.set_line_endings("\\n")
+                    for ax, lab in zip("xyz", st[2]):
+                        f.set_axis_label(ax, lab)
+                    g.set_formatter(f)
+                    dp, labels = st[1], list(st[2])
+                if len(set(labels)) < 3:
+                    continue                  # two axes under one letter: nothing well-defined to expect, not driven
+                c2 = dict(cfg, dp=dp, labels=labels)
+                for cmd in cmds:
+                    for v in vals:
+                        ev.append(run_case(c2, cmd, v, live))
+            m = meta_of(cfg)
+            m["reconfigured"] = True
+            traces.append({"meta": m, "ev": ev})
+            inputs.append({"cfg": cfg, "cases": len(ev), "reconfigured": True, "relabelled": True})
         return traces, inputs
 
     def replay(self, payload):
